@@ -209,3 +209,19 @@ Definition c_hident (zero_flags : list bool) (hb : list (list (list dy))) : N :=
                        dleb (dabs (dsub (snd iv) (if fst zb then d0 else if fst iv =? fst jc then d1 else d0))) tol)
                      (indexed (snd jc))) (indexed (snd zb)))
           (combine zero_flags hb)).
+
+(** ** value updates through index sets: the real _update_values / _scale_values / update_P /
+    update_A against [Model.update_values] / [Model.scale_values], exact dyadic arithmetic
+    (scales are powers of two and values small dyadics, so the f64 products are exact) *)
+Definition OpsD : Ops dy := {|
+  zero := d0; one := d1; add := dadd; sub := dsub; mul := dmul; div := fun a _ => a;
+  neg := dneg; abs := dabs; sqrt := fun a => a; ltb := dltb; leb := dleb; eqb := deqb; ofZ := dofZ |}.
+Inductive mapop : Set := OpU (idx : list N) (v : list dy) | OpS (idx : list N) (c : dy).
+Definition apply_mapop (perm : list nat) (kl : list dy * list dy) (op : mapop) : list dy * list dy :=
+  match op with
+  | OpU idx v => update_values kl perm (nats idx) v
+  | OpS idx c => scale_values OpsD kl perm (nats idx) c
+  end.
+Definition c_mapops (k0 l0 : list dy) (perm : list N) (ops : list mapop) (k1 l1 : list dy) : N :=
+  let kl := fold_left (apply_mapop (nats perm)) ops (k0, l0) in
+  ofb (list_eqb deqb (fst kl) k1 && list_eqb deqb (snd kl) l1).
